@@ -50,7 +50,7 @@ CHECKS = {
    ref="DESIGN.md §5 C09"),
  "C10": dict(
    technique="runtime monitor: big.Int/big.Rat reference (truncation, saturation table, exact rounding) over generated boundary workloads",
-   text="Int64/Int32/Uint64/Uint32, Int, Rat are observed on decimals at every type bound +/-1 with fractions and cohort variants, fractions in (-1,1), huge exponents, specials; FromInt64/32/Uint64/32 on machine integers; FromInt on big.Ints up to 20000 bits (ties at the 34/35-digit cut, nine-runs, around MaxFinite) and FromRat on rationals with small, terminating, huge and out-of-range terms, under each DefaultRoundingMode; FromRat(d.Rat()) must be value-equal to d. Exploration.",
+   text="Int64/Int32/Uint64/Uint32, Int, Rat are observed on decimals at every type bound +/-1 with fractions and cohort variants, fractions in (-1,1), huge exponents, specials; FromInt64/32/Uint64/32 on machine integers; FromInt on big.Ints up to 20000 bits (ties at the 34/35-digit cut, nine-runs, around MaxFinite) and FromRat on rationals with small, terminating, huge and out-of-range terms, under each DefaultRoundingMode (where the format spacing exceeds the stated 2e-33 tolerance the nearest Decimal is required under a nearest default mode, a neighbour under a directed one); FromRat(d.Rat()) must be value-equal to d; Rat with reused receivers. Exploration.",
    ref="DESIGN.md §5 C10"),
  "C11": dict(
    technique="runtime monitor: exact scaling oracle (big.Int times power of ten rounded into the member set) and exact Frexp invariants, per DefaultRoundingMode phase",
@@ -58,7 +58,7 @@ CHECKS = {
    ref="DESIGN.md §5 C11"),
  "C12": dict(
    technique="runtime monitor: independent IEEE 754-2008 BID decoder over marshalled bytes cross-checked against two other observers (Rat, harness-read String); byte-level round-trip, aliasing and length monitors",
-   text="MarshalBinary is observed for injected bit patterns (every biased exponent x both coefficient forms, uniform bytes, specials with payload garbage) and for values produced by Parse, New and arithmetic; the 16 bytes are decoded as big-endian BID by the harness and must denote the value seen by Rat and by the harness's reading of String, with 0x78/0x7C prefixes and the steering form only above 2^113. UnmarshalBinary is observed on slices of length 0..64: accepts exactly length 16, Marshal(Unmarshal(b)) == b, inputs untouched, outputs fresh. Exploration.",
+   text="MarshalBinary is observed for injected bit patterns (every biased exponent x both coefficient forms, uniform bytes, specials with payload garbage) and for values produced by Parse, New and arithmetic; the 16 bytes are decoded as big-endian BID by the harness and must denote the value seen by Rat and by the harness's reading of String, with 0x78/0x7C prefixes and the steering form only above 2^113; for NaN/Inf patterns (random and structured tails: all zero, low word zero, one bit, library-shaped payloads) the library's own view (String, IsNaN, IsInf) must be the class and sign the decoder reads. UnmarshalBinary is observed on slices of length 0..64: accepts exactly length 16, Marshal(Unmarshal(b)) == b, inputs untouched, outputs fresh. Exploration.",
    ref="DESIGN.md §5 C12"),
  "C13": dict(
    technique="runtime monitor: RFC 8259 regex + json.Valid + harness numeral reader on produced tokens; exact-value oracle and Parse-agreement on consumed tokens; encoding/json container round trips; receiver-unchanged monitors",
@@ -66,11 +66,11 @@ CHECKS = {
    ref="DESIGN.md §5 C13"),
  "C14": dict(
    technique="runtime monitor: big.Int representability oracle for Compose (exact-or-error), exact inverse check for Decompose with nil/short/roomy buffers",
-   text="Compose is observed on coefficients of 0..400 bytes (thresholds 16/17 and 32/33, leading zero bytes), foldable c*10^k and unfoldable c*10^k+1 shapes, exponents outside -6176..6111 compensated by the coefficient, int32 extremes, all forms; the oracle decides representability in big.Int and requires the exact value or an error, never rounding, input untouched. Decompose is observed on every value class with three buffer regimes and must be inverted exactly by Compose. Exploration.",
+   text="Compose is observed on coefficients of 0..400 bytes (thresholds 16/17 and 32/33, leading zero bytes), foldable c*10^k and unfoldable c*10^k+1 shapes, exponents outside -6176..6111 compensated by the coefficient, int32 extremes, all forms; the oracle decides representability in big.Int and requires the exact value or an error, never rounding, input untouched. Folded coefficients are also aimed exactly at the largest/smallest exponent from the top of the coefficient range. Decompose is observed on every value class with three buffer regimes and must be inverted exactly by Compose (when the caller's buffer is written is recorded, not judged). Exploration.",
    ref="DESIGN.md §5 C14"),
  "C15": dict(
    technique="runtime monitor: class/sign oracle evaluated with Go's float64 math on dyadic class representatives, bit-identity monitor for NaN propagation, payload-text oracle from an independent op/class name table, four-way classification check against the harness decoder",
-   text="Every arithmetic (x 6 modes and default), QuoRem, Pow, elementary, rounding and sign operation is observed on the complete cross product of 15 operand classes with random members per cell (non-canonical Inf/NaN/zero encodings, cohorts, huge odd/even integers); results are judged for class and sign whenever an operand is NaN/Inf/zero or the operation is invalid, NaN operands must be propagated bit for bit, invalid-operation NaNs must carry the documented Payload text, finite operands never give NaN otherwise, and IsNaN/IsInf/IsZero/Signbit are checked on arbitrary bit patterns. The run is inconclusive unless every class cell was hit. Exploration.",
+   text="Every arithmetic (x 6 modes and default), QuoRem, Pow, elementary, rounding and sign operation is observed on the complete cross product of 15 operand classes with random members per cell (non-canonical Inf/NaN/zero encodings, cohorts, huge odd/even integers); results are judged for class and sign whenever an operand is NaN/Inf/zero or the operation is invalid, NaN operands must be propagated bit for bit, invalid-operation NaNs must report the operation and the signed operand classes through Payload (compared by meaning, not wording), Ldexp/Frexp keep zero/Inf/NaN operands for hostile integer arguments, finite operands never give NaN otherwise, and IsNaN/IsInf/IsZero/Signbit are checked on arbitrary bit patterns. The run is inconclusive unless every class cell was hit. Exploration.",
    ref="DESIGN.md §5 C15"),
  "C16": dict(
    technique="runtime monitor: 1100-bit big.Float reference (error < 2^-900), error measured in units of the format spacing at the true result; exact-result oracle for exactly representable cases; analytic side decision inside the 1e-100 guard band; per DefaultRoundingMode phase",
@@ -78,7 +78,7 @@ CHECKS = {
    ref="DESIGN.md §5 C16"),
  "C17": dict(
    technique="runtime monitor: exact integer inequality oracle (|r| -/+ (1/2+1e-20)u)^k vs |x| in big.Int, exact-root oracle for constructed perfect powers",
-   text="Sqrt and Cbrt are observed over the whole exponent range (all parity / mod-3 classes), coefficient shapes, perfect squares and cubes with their +/-1-unit neighbours, (m+1/2)^k shapes, subnormal and range-end arguments, zeros and infinities; each result is decided exactly against the stated midpoint margin, must carry the right sign, and perfect powers must give exact roots. Judged under the default nearest-even mode. Exploration.",
+   text="Sqrt and Cbrt are observed over the whole exponent range (all parity / mod-3 classes), coefficient shapes, perfect squares and cubes with their +/-1-unit neighbours, (m+1/2)^k shapes, constructed arguments whose exact root lies 1e-9 .. 1e-33 ulp from a rounding midpoint (CRT construction for Sqrt, tuned quadratic term next to short roots for Cbrt), roots aimed at internal thresholds, a sweep of every six-digit significand in every exponent class, subnormal and range-end arguments, zeros and infinities; each result is decided exactly against the stated midpoint margin, must carry the right sign, and perfect powers must give exact roots. Judged under the default nearest-even mode. Exploration.",
    ref="DESIGN.md §5 C17"),
  "C18": dict(
    technique="runtime monitor: exact oracle for the shortcut ladder (y=0, 1, -1, powers of ten, +/-0.5, negative bases) and 1100-bit exp(y ln|x|) reference with the statement's own tolerance; Pow vs PowWithMode bit-equality observer; per DefaultRoundingMode phase",
